@@ -923,13 +923,14 @@ Error JitAllocator::alloc(Out<Span> out, size_t size) noexcept {
   JitAllocatorPrivateImpl* impl = static_cast<JitAllocatorPrivateImpl*>(_impl);
   bool not_initialized = _impl == &JitAllocatorImpl_none;
 
-  // Align to the minimum granularity by default.
+  // Align to the minimum granularity by default (a request within `granularity` of SIZE_MAX wraps around to zero).
+  size_t requested_size = size;
   size = Support::align_up<size_t>(size, impl->granularity);
   out = Span{};
 
   if (ASMJIT_UNLIKELY(Support::bool_or(not_initialized, size - 1u >= max_request_size))) {
-    return make_error(not_initialized ? Error::kNotInitialized  :
-                      size == 0u      ? Error::kInvalidArgument : Error::kTooLarge);
+    return make_error(not_initialized      ? Error::kNotInitialized  :
+                      requested_size == 0u ? Error::kInvalidArgument : Error::kTooLarge);
   }
 
   LockGuard guard(impl->lock);
